@@ -802,7 +802,10 @@ impl Machine {
         });
 
         if let Some(closure_idx) = maybe_closure {
-            if !self.get_closure(closure_idx).is_closed {
+            // Every entry released here was created (refcount 1) or CloneHeap'd (refcount + 1),
+            // for closed closures too: give the reference back in both cases, otherwise a
+            // closed closure outlives its last heap reference for ever.
+            if self.closures.contains_key(closure_idx.0) {
                 self.drop_closure(closure_idx);
             }
         }
